@@ -7,7 +7,7 @@ PROFILE = {"L_choices": [0, 0, 7, 64, 1000], "N_choices": [-1, 0, 2, 3, 5, 12], 
 
 
 def run(ctx):
-    return rotcheck.run_property(ctx, "C09", PROFILE, quick=400, thorough=40000,
+    return rotcheck.run_property(ctx, "C09", PROFILE, quick=400, thorough=15000,
                                  nontrivial=lambda a: a.stats["rotations"] >= 2 and a.stats["records"] >= 4,
                                  rule="daily rotation always on; day jumps of 1..40 days, size rotations, restarts, retention, delivery lag and midnight "
                                       "between clock reads; non-trivial = >= 2 rotations and >= 4 records")
